@@ -274,6 +274,23 @@ def eval_group(env, group, tier):
                         err = o.err.decode('utf-8', 'replace')
                         ok = (not o.panicked and o.rc == rc and sorted(o.rows()) == rows and (named is None and not err or named is not None and named in err))
                         emit(sub, ok, 'failing-root', dict(o.brief(), query=q, expected_rc=rc, expected_rows=rows))
+                # a root that failed before LIMIT was reached has failed all the same (every N; the rows are a part of the full result)
+                for frm, named in (('bad, good, good', 'bad'), ('nonexistent, good, good', 'nonexistent'), ('file, good, good, good', 'file'), ('good, bad, good', 'bad'),
+                                   ('nonexistent, good, bad', 'nonexistent')):
+                    for mode in ('', ' dfs'):
+                        for N in (1, 2, 3, 4, 5):
+                            sub = [frm, mode, N]
+                            if only is not None and sub != only:
+                                continue
+                            q = 'path from ' + frm.replace(',', mode + ',') + mode + ' limit %d into list' % N
+                            o = env.run([q], cwd=root, user=NOBODY)
+                            err = o.err.decode('utf-8', 'replace')
+                            # (named: the failing root stands before the root in which row N is found)
+                            before = frm.split(', ').index(named) * 2 < N or frm.startswith(named)
+                            ok = not o.panicked and o.rc in (0, 1) and len(o.rows()) == min(N, 2 * frm.count('good')) and all(r_ in ('good/a', 'good/b') for r_ in o.rows())
+                            if before:
+                                ok = ok and o.rc == 1 and named in err
+                            emit(sub, ok, 'failing-root-before-limit', dict(o.brief(), query=q, named=named, failing_root_met_before_the_limit=before))
             finally:
                 os.chmod(os.path.join(root, 'bad'), 0o755)
         elif kind == 'file':
